@@ -183,6 +183,7 @@ def judgeSign (key digest : Bytes) (resp : String) : Verdict :=
       else if Spec.Ecdsa.recover secpCurve z r s (par == 1) != some Q then .fails "recovery does not return the signer's key"
       else .holds
     | _, _, _ => .fails "unparsable"
+  | ["ok", why] => .fails ("the signature is not a function of (key, digest) alone: " ++ why)
   | _ => .fails "signing a valid key/digest must succeed"
 
 def eip191 (m : Bytes) : Bytes :=
